@@ -392,11 +392,11 @@ pub fn property() -> Property {
             "JSON numbers are generated in serde_json's canonical spelling",
         ],
         sections: vec![
-            Section { name: "text", plan: |t| match t { Tier::Quick => Plan::Random { cases: 100_000, max_len: 60 }, Tier::Thorough => Plan::Random { cases: 2_000_000, max_len: 100 } }, case: case_text, min_classes: &[("empty-text", 1000), ("text-with-nul", 1000), ("text-starting-with-bom", 100)] },
-            Section { name: "hex", plan: |t| match t { Tier::Quick => Plan::Random { cases: 40_000, max_len: 6 }, Tier::Thorough => Plan::Random { cases: 500_000, max_len: 6 } }, case: case_hex, min_classes: &[] },
+            Section { name: "text", plan: |t| match t { Tier::Quick => Plan::Random { cases: 100_000, max_len: 60 }, Tier::Thorough => Plan::Random { cases: 8_000_000, max_len: 100 } }, case: case_text, min_classes: &[("empty-text", 1000), ("text-with-nul", 1000), ("text-starting-with-bom", 100)] },
+            Section { name: "hex", plan: |t| match t { Tier::Quick => Plan::Random { cases: 40_000, max_len: 6 }, Tier::Thorough => Plan::Random { cases: 2_000_000, max_len: 6 } }, case: case_hex, min_classes: &[] },
             Section { name: "json", plan: |t| match t { Tier::Quick => Plan::Random { cases: 60_000, max_len: 400 }, Tier::Thorough => Plan::Skip }, case: case_json_q, min_classes: &[("json-depth-2", 5000), ("json-with-null", 5000), ("json-hazardous-key", 5000)] },
-            Section { name: "json-deep", plan: |t| match t { Tier::Quick => Plan::Skip, Tier::Thorough => Plan::Random { cases: 1_000_000, max_len: 1500 } }, case: case_json_t, min_classes: &[] },
-            Section { name: "properties", plan: |t| match t { Tier::Quick => Plan::Random { cases: 60_000, max_len: 160 }, Tier::Thorough => Plan::Random { cases: 1_000_000, max_len: 200 } }, case: case_properties, min_classes: &[("properties-latin1-range", 2000), ("properties-astral", 2000), ("properties-edge-space", 2000)] },
+            Section { name: "json-deep", plan: |t| match t { Tier::Quick => Plan::Skip, Tier::Thorough => Plan::Random { cases: 4_000_000, max_len: 1500 } }, case: case_json_t, min_classes: &[] },
+            Section { name: "properties", plan: |t| match t { Tier::Quick => Plan::Random { cases: 60_000, max_len: 160 }, Tier::Thorough => Plan::Random { cases: 4_000_000, max_len: 200 } }, case: case_properties, min_classes: &[("properties-latin1-range", 2000), ("properties-astral", 2000), ("properties-edge-space", 2000)] },
         ],
         probes: vec![],
     }
